@@ -4,6 +4,7 @@ import (
 	"github.com/golang/groupcache/lru"
 	"golang.org/x/time/rate"
 	"net"
+	"strings"
 	"sync"
 )
 
@@ -50,6 +51,12 @@ func NewQuota(eventsPerSecond float32, burst, maxEntries int) *Quota {
 // would let one subscriber rotate through its own addresses and evade the
 // limiter entirely.
 func ipKey(ipStr string) string {
+	// A zone ("fe80::1%eth0", as reported for link-local peers) only scopes the
+	// address to an interface. net.ParseIP does not accept it, which would leave
+	// such peers without a bucket and therefore without any limit.
+	if i := strings.IndexByte(ipStr, '%'); i >= 0 {
+		ipStr = ipStr[:i]
+	}
 	ip := net.ParseIP(ipStr)
 	if ip == nil {
 		return ""
